@@ -470,3 +470,4 @@ V("c06-rgb-name-as-typed", "C06", CO, "            return cls(triplet.rgb, Color
 V("c06-rgb-name-original", "C06", CO, "            return cls(triplet.rgb, ColorType.TRUECOLOR, triplet=triplet)\n", "            return cls(original_color, ColorType.TRUECOLOR, triplet=triplet)\n", "R6.9")
 V("c06-benign-rgb-name-fstring", "C06", CO, "            return cls(triplet.rgb, ColorType.TRUECOLOR, triplet=triplet)\n", '            return cls(f"rgb({triplet.red},{triplet.green},{triplet.blue})", ColorType.TRUECOLOR, triplet=triplet)\n', None)
 V("c06-benign-rgb-no-space-regex", "C06", CO, "rgb\\(([\\d\\s,]+)\\)$", "rgb\\(([\\d,]+)\\)$", None)
+V("c16-array-typecode-bare", "C16", "rich/pretty.py", 'return (f"array({_object.typecode!r}, [", "])", f"array({_object.typecode!r})")', 'return (f"array({_object.typecode}, [", "])", f"array({_object.typecode})")', "R16.12")
